@@ -111,9 +111,9 @@ Lemma wedge_bounds_rounding s k :
 Proof.
   intros Hf. cbv zeta. unfold wedge_bounds, wedge_bounds_rounded, rb_minlon, rb_minlat, rb_maxlon, rb_maxlat; cbn [fst snd].
   assert (Hlon : forall p theta d, Rabs (rad (lon (dest_rad_rounded p theta d)) - rad (lon (dest_rad p theta d))) <= rad round_step)
-    by (intros; apply dest_rounding_rad).
+    by (intros p theta d; exact (proj1 (dest_rounding_rad p theta d))).
   assert (Hlat : forall p theta d, Rabs (rad (lat (dest_rad_rounded p theta d)) - rad (lat (dest_rad p theta d))) <= rad round_step)
-    by (intros; apply dest_rounding_rad).
+    by (intros p theta d; exact (proj2 (dest_rounding_rad p theta d))).
   split; [exact (min_rounding s k Hf lon Hlon)|]. split; [exact (min_rounding s k Hf lat Hlat)|].
   split; [exact (max_rounding s k Hf lon Hlon)|exact (max_rounding s k Hf lat Hlat)].
 Qed.
